@@ -78,6 +78,10 @@ def gen_case(rng, i):
             else:
                 s = gen.gen_struct(rng, names=gen.gen_names(rng, 1, 2), shape=gen.sub_shape(rng, common), kind="int", nterms=2, maxexp=1, lim=2)
             s["as"] = "poly"
+            if rng.random() < .3:
+                # a polynomial argument whose coefficients have a type without a compiled product kernel: its powers are
+                # formed on the numpy path of multiply (seeded change C02-15: products filed under another pair's exponent)
+                s["dtype"] = gen.choice(rng, ["int32", "int16"])
             bound[nm] = s
             continue
         shape = gen.sub_shape(rng, common)
